@@ -4,6 +4,7 @@
 package c14
 
 import (
+	"bytes"
 	"context"
 	"encoding/json"
 	"errors"
@@ -456,6 +457,96 @@ func scenario(c *common.Ctx, cf *common.CaseFile, r *common.Rand, kind, scen str
 		}
 		e.syncOnce(p2, cf, scen, "sync after the restore and two commits", history)
 		e.idleConverges(p2, cf, scen, history)
+	case "replacement":
+		// the primary is replaced by a node with an empty data directory: it adopts what the service holds
+		if err := commitNoting(p1, 3+r.Intn(3)); err != nil {
+			return err
+		}
+		e.syncOnce(p1, cf, scen, "first primary syncs", history)
+		p2, err := e.newPrimary(filepath.Join(dir, "p2"))
+		if err != nil {
+			return err
+		}
+		defer p2.node.Close()
+		e.syncOnce(p2, cf, scen, "replacement primary (empty data directory) syncs", history)
+		e.syncOnce(p2, cf, scen, "replacement primary syncs again", history)
+		if p2.pos() != e.svcPos() {
+			c.Violate("C14:"+kind+":replacement:not-adopted", fmt.Sprintf("a primary that starts with an empty data directory stays at %v after two syncs; the service holds the database at %v", p2.pos(), e.svcPos()), map[string]any{"kind": "backup-replacement"})
+			return nil
+		}
+		want, _, _ := e.restoredImage()
+		if got, rerr := lfs.ReadImage(filepath.Join(p2.dir, "dbs", "db")); rerr == nil {
+			if eq, why := got.Equal(want); !eq {
+				c.Violate("C14:"+kind+":replacement:image", "the replacement primary's database differs from the service's: "+why, map[string]any{"kind": "backup-replacement"})
+			}
+			p2.h = hist.NewOn(e.c, e.r.Fork(), hist.Config{PageSize: 512}, p2.node.Store, p2.node.Exits, "db", got, p2.pos().txid, false)
+		}
+		if err := commitNoting(p2, 2); err != nil {
+			return fmt.Errorf("commit on the replacement primary: %v", err)
+		}
+		e.syncOnce(p2, cf, scen, "sync after two commits on the replacement primary", history)
+		e.idleConverges(p2, cf, scen, history)
+	case "service-writes":
+		// the service's own rule: it only ever appends a file that starts right after what it holds
+		if err := commitNoting(p1, 3); err != nil {
+			return err
+		}
+		e.syncOnce(p1, cf, scen, "first sync", history)
+		sp := e.svcPos()
+		im, err := lfs.ReadImage(filepath.Join(p1.dir, "dbs", "db"))
+		if err != nil || len(im.Pages) == 0 {
+			return fmt.Errorf("image: %v", err)
+		}
+		tgt := uint32(len(im.Pages))
+		pg := lfs.MakePage(512, tgt, 919191, tgt, false)
+		next := im.Clone()
+		next.Pages[tgt-1] = pg
+		mk := func(min, max, pre uint64, full bool) []byte {
+			pages := map[uint32][]byte{tgt: pg}
+			if full {
+				pages = map[uint32][]byte{}
+				for i, b := range next.Pages {
+					pages[uint32(i+1)] = b
+				}
+			}
+			return buildLTX(512, tgt, min, max, pre, next.Checksum(), pages)
+		}
+		type offer struct {
+			name          string
+			min, max, pre uint64
+			full          bool
+		}
+		offers := []offer{
+			{"a gap", sp.txid + 2, sp.txid + 2, sp.chk, false},
+			{"an overlap", sp.txid, sp.txid, sp.chk, false},
+			{"another history's checksum", sp.txid + 1, sp.txid + 1, sp.chk ^ 0x77, false},
+			{"a whole-database file of another history (1..n)", 1, sp.txid + 1, 0, true},
+			{"a whole-database file that ends below the service", 1, sp.txid - 1, 0, true},
+			{"the next transaction", sp.txid + 1, sp.txid + 1, sp.chk, false},
+		}
+		cfs := c.Cases("cases_c14s", "Require Import LF.Model.Repl LF.Model.Backup.\nLocal Open Scope N_scope.", "pos * (N * N * N * N) * list N", "mismatches_svc")
+		for _, o := range offers {
+			before := e.svcPos()
+			_, werr := p1.fl.inner.WriteTx(bg, "db", bytes.NewReader(mk(o.min, o.max, o.pre, o.full)))
+			after := e.svcPos()
+			c.Evaluations++
+			c.Distinct(kind + ":service-writes:" + o.name)
+			rep := map[string]any{"kind": "backup-service-write", "client": kind, "offer": o.name, "error": fmt.Sprint(werr)}
+			extends := o.min == before.txid+1 && o.pre == before.chk
+			if ok, why, _ := e.svcChain(); !ok {
+				c.Violate("C14:"+kind+":service-writes:chain", fmt.Sprintf("the service (at %v) was offered %s (%d-%d, pre %016x) and no longer holds one gap-free chain: %s", before, o.name, o.min, o.max, o.pre, why), rep)
+				return nil
+			}
+			if !extends && (werr == nil || after != before) {
+				c.Violate("C14:"+kind+":service-writes:accepted", fmt.Sprintf("the service (at %v) accepted %s (%d-%d, pre %016x): error %v, position now %v", before, o.name, o.min, o.max, o.pre, werr, after), rep)
+				return nil
+			}
+			acc := uint64(0)
+			if werr == nil {
+				acc = 1
+			}
+			cfs.Add(fmt.Sprintf("((%d,%d), (%d,%d,%d,%d), %s)", before.txid, before.chk, o.min, o.max, o.pre, next.Checksum(), common.CoqNList([]uint64{acc, after.txid, after.chk})), rep)
+		}
 	case "missing-file":
 		if err := commitNoting(p1, 3); err != nil {
 			return err
@@ -610,7 +701,7 @@ func background(c *common.Ctx, r *common.Rand, kind string) error {
 func Run(c *common.Ctx) error {
 	cf := c.Cases("cases_c14", "Require Import LF.Model.Repl LF.Model.Backup.\nLocal Open Scope N_scope.", "bool * pos * list (N * N * N * N) * pos * N * list N", "mismatches_backup")
 	cf.Shard = 12
-	scens := []string{"behind", "drop", "partial-upload", "ahead", "fork-equal", "fork-lower", "missing-file", "retention", "big-batch"}
+	scens := []string{"behind", "drop", "partial-upload", "ahead", "fork-equal", "fork-lower", "missing-file", "retention", "replacement", "service-writes", "big-batch"}
 	rounds := c.Pick(1, 4)
 	for round := 0; round < rounds; round++ {
 		for _, kind := range []string{"file", "lfsc"} {
@@ -633,4 +724,22 @@ func Run(c *common.Ctx) error {
 		}
 	}
 	return nil
+}
+
+func buildLTX(ps uint32, commit uint32, min, max uint64, pre, post uint64, pages map[uint32][]byte) []byte {
+	var buf bytes.Buffer
+	enc := ltx.NewEncoder(&buf)
+	_ = enc.EncodeHeader(ltx.Header{Version: 1, PageSize: ps, Commit: commit, MinTXID: ltx.TXID(min), MaxTXID: ltx.TXID(max),
+		Timestamp: time.Now().UnixMilli(), PreApplyChecksum: ltx.Checksum(pre), NodeID: 0x55})
+	var pgs []int
+	for pg := range pages {
+		pgs = append(pgs, int(pg))
+	}
+	sort.Ints(pgs)
+	for _, pg := range pgs {
+		_ = enc.EncodePage(ltx.PageHeader{Pgno: uint32(pg)}, pages[uint32(pg)])
+	}
+	enc.SetPostApplyChecksum(ltx.Checksum(post))
+	_ = enc.Close()
+	return buf.Bytes()
 }
